@@ -870,3 +870,33 @@ def context_relations(ev, env, block):
         rels.extend(r)
         raw.extend(w)
     return rels, raw
+
+
+def struct_view(F, t, adt_path):
+    """a value of struct type as {field: term}, whether it was built by a struct literal (`Self { a, ..self }`) or by
+    assigning fields of an existing value (`self.a = x; self`): ('agg', …) or a chain of ('update', base, (field,), v)"""
+    if t[0] == "agg" and t[1] == adt_path:
+        return dict(t[3])
+    ups = {}
+    x = t
+    while x[0] in ("update", "mutated"):
+        if x[0] == "mutated":
+            return None
+        _, base, path, v = x
+        if len(path) != 1 or path[0][0] != "field":
+            return None
+        ups.setdefault(path[0][1], v)
+        x = base
+    if not ups:
+        return None
+    try:
+        names = [f["name"] for f in struct_fields(F, adt_path)]
+    except AnchorMissing:
+        return None
+    if x[0] == "agg" and x[1] == adt_path:
+        basef = dict(x[3])
+    else:
+        basef = {n: ("field", x, n) for n in names}
+    out = dict(basef)
+    out.update(ups)
+    return out
